@@ -131,17 +131,20 @@ def known(kid):
         return bool(swap_cases().get("confirmed"))
     want = {"induction-variable-zero-trip":
             "ReplaceInductionVariablesTrans.apply[n=0]",
-            "hoist-zero-trip": "HoistTrans.apply[n=0]"}.get(kid)
+            "hoist-zero-trip": "HoistTrans.apply[n=0]",
+            "fuse-forward-dependence":
+            "LoopFuseTrans.apply(forward-dependence)[n=8]"}.get(kid)
     return any(n == want and not ok for n, ok, _, _ in bounded_cases())
 
 
-def bounded_cases():
+def bounded_cases(thorough=False):
     """bounded stand-in for the apply() bodies that are not under contract:
     original vs transformed routine under the serial evaluator for trip
     counts n in {0, 1, 3, 8}.  [(name, ok, detail, source)]"""
     from psyclone.psyir.transformations import (
         ReplaceInductionVariablesTrans, LoopSwapTrans, ChunkLoopTrans,
-        HoistTrans)
+        HoistTrans, LoopFuseTrans, LoopTiling2DTrans,
+        HoistLoopBoundExprTrans)
     from psyclone.psyir.nodes import Loop, Assignment
     fam = {
         "ReplaceInductionVariablesTrans.apply": (
@@ -159,10 +162,47 @@ def bounded_cases():
         "HoistTrans.apply": (
             "  do i = 1, n\n    t = 5\n    b(i) = b(i) + t\n  end do\n",
             lambda psy: HoistTrans().apply(psy.walk(Assignment)[0])),
+        "LoopFuseTrans.apply(forward-dependence)": (
+            "  do i = 1, 7\n    b(i) = b(i) + 1.0\n  end do\n"
+            "  do i = 1, 7\n    a(i,1) = b(i + 1)\n  end do\n",
+            lambda psy: LoopFuseTrans().apply(psy.walk(Loop)[0],
+                                              psy.walk(Loop)[1])),
+        "LoopFuseTrans.apply(same-index)": (
+            "  do i = 1, n\n    b(i) = b(i) + 1.0\n  end do\n"
+            "  do i = 1, n\n    a(i,1) = b(i)\n  end do\n",
+            lambda psy: LoopFuseTrans().apply(psy.walk(Loop)[0],
+                                              psy.walk(Loop)[1])),
     }
+    if thorough:
+        fam.update({
+            "LoopFuseTrans.apply(backward-dependence)": (
+                "  do i = 2, 8\n    b(i) = b(i) + 1.0\n  end do\n"
+                "  do i = 2, 8\n    a(i,1) = b(i - 1)\n  end do\n",
+                lambda psy: LoopFuseTrans().apply(psy.walk(Loop)[0],
+                                                  psy.walk(Loop)[1])),
+            "LoopFuseTrans.apply(scalar)": (
+                "  do i = 1, 8\n    t = b(i)\n  end do\n"
+                "  do i = 1, 8\n    a(i,1) = t\n  end do\n",
+                lambda psy: LoopFuseTrans().apply(psy.walk(Loop)[0],
+                                                  psy.walk(Loop)[1])),
+            "ChunkLoopTrans.apply(negative-step)": (
+                "  do i = n, 1, -1\n    b(i) = b(i) + i\n  end do\n",
+                lambda psy: ChunkLoopTrans().apply(psy.walk(Loop)[0],
+                                                   {"chunksize": 3})),
+            "LoopTiling2DTrans.apply": (
+                "  do j = 1, n\n    do i = 1, n\n      a(i,j) = a(i,j) + i "
+                "- j\n    end do\n  end do\n",
+                lambda psy: LoopTiling2DTrans().apply(psy.walk(Loop)[0],
+                                                      {"tilesize": 3})),
+            "HoistLoopBoundExprTrans.apply": (
+                "  do i = 1, n - 1\n    b(i) = b(i) + 2.0\n  end do\n",
+                lambda psy: HoistLoopBoundExprTrans().apply(
+                    psy.walk(Loop)[0])),
+        })
     out = []
     for name, (body, apply) in fam.items():
-        for n in (0, 1, 3, 8):
+        # loops with literal bounds do not depend on n: one run
+        for n in ((0, 1, 3, 8) if " n" in body or ",n" in body else (8,)):
             res, src = _run(body, apply, n=n)
             out.append((f"{name}[n={n}]", not res.startswith("differs"),
                         res, src))
